@@ -20,7 +20,7 @@ RULE = ("cases = (state machine, JSON input, task behaviour, STANDARD|EXPRESS) g
         "one of: non-default filter, Choice, fan-out, task error on the executed path. Distinct by canonical JSON of "
         "(definition, input, task behaviour).")
 
-CFG_QUICK = {"max_states": 6, "max_depth": 1, "max_branches": 3, "max_seq": 4}
+CFG_QUICK = {"max_states": 8, "max_depth": 2, "max_branches": 3, "max_seq": 4}
 CFG_THOROUGH = {"max_states": 12, "max_depth": 2, "max_branches": 4, "max_seq": 6, "fanout_heavy": True}
 
 
@@ -65,6 +65,10 @@ def evaluate(case, seed=0):
             else:
                 fails += [("describe-" + c, d) for c, d in H.compare_outcome(expected, H.detail_outcome(rec))]
         info["observed"] = observed
+        for ex in w.engine_exceptions:
+            fails.append(("engine-callback-exception:%s@%s" % (ex["type"], ex["where"].split(":")[0]), "%r" % (ex,)))
+        if len([n for n in w.notifications_for(arn) if n["body"]["detail"]["status"] != "RUNNING"]) > 1:
+            fails.append(("ended-more-than-once", "terminal notifications: %r" % [n["body"]["detail"]["status"] for n in w.notifications_for(arn)]))
     finally:
         if w is not None:
             w.close()
@@ -79,6 +83,13 @@ def evaluate(case, seed=0):
         try:
             alt_expected = alt.run(copy.deepcopy(case["input"]))
             explained = not H.compare_outcome(alt_expected, info.get("observed"))
+            k = 1
+            while not explained and alt.ambiguous_failure and k < 4:
+                # under the convention several branches "fail" at the same instant: any of them may be the one acted upon
+                alt = ri.Interp(case["definition"], copy.deepcopy(case.get("oracle") or {}), t0=1_700_000_000.0, execution={"Name": "e1"},
+                                sm_arn="arn:aws:states:local:0123456789:stateMachine:m1", inband_convention=True, choose_failure=lambda c, k=k: k)
+                explained = not H.compare_outcome(alt.run(copy.deepcopy(case["input"])), info.get("observed"))
+                k += 1
         except ri.Unspec:
             explained = False
     for clause, detail in fails:
@@ -155,5 +166,5 @@ def main(tier, seed, replay=None):
     if tier == "thorough":
         run_shards(camp, __name__, "shard", 16, examples=1500)
     else:
-        run_shards(camp, __name__, "shard", 8, examples=200)
+        run_shards(camp, __name__, "shard", 8, examples=320)
     return camp.finish()
